@@ -133,12 +133,16 @@ def run(ctx):
     if not quick:
         vecs += simulate(ctx, "SampleBuilder_SimClean", 2000)
     vecs += simulate(ctx, "SampleBuilder_SimDelay", 8 if quick else 60)
+    # loss-free in-order streams that span less than the configured time delay: nothing is ever too old, so every
+    # complete frame must come out (CompleteAfterFlush applies); these take every timestamp start in turn
+    n_before_cd = len(vecs)
+    vecs += simulate(ctx, "SampleBuilder_SimCleanDelay", 18 if quick else 90)
     tsbacks = [0, 1, 2999, 3000, 3001, 9000, 45000, 100000, 10 ** 9]
     for v in vecs:
         v.pop("expect", None)
     for i, v in enumerate(vecs):
         v["id"] = i
-        v["tsBack"] = tsbacks[ctx.rng.randrange(len(tsbacks))]
+        v["tsBack"] = tsbacks[ctx.rng.randrange(len(tsbacks))] if i < n_before_cd else tsbacks[i % len(tsbacks)]
     ctx.log("%d sessions (%d from model counterexamples), %d script steps" %
             (len(vecs), n_model, sum(len(v["script"]) for v in vecs)))
     infile = vlib.write_json(os.path.join(ctx.work, "sessions.json"), vecs)
